@@ -205,6 +205,17 @@ func (c *Ctx) execInstr(in ssa.Instruction, st *State) {
 		}
 		c.drop("next")
 		c.curReachFresh(x, st)
+		// range over a map: a key the iteration yields is a key of the map at that moment
+		// (and the value yielded is the value stored under it)
+		if r, ok := x.Iter.(*ssa.Range); ok {
+			if mt, ok := r.X.Type().Underlying().(*types.Map); ok {
+				if tv := c.vals[x]; tv != nil && tv.K == VTuple && len(tv.F) >= 2 {
+					mv := c.operand(r.X, st)
+					key := c.mapKeyTerm(mt, tv.F[1])
+					c.assumeHere(sImp(tv.F[0].S, sAnd(sNot(sEq(mv.S, "0")), c.mapHas(st, mt, mv.S, key))))
+				}
+			}
+		}
 	case *ssa.Select:
 		v := c.freshVal(x.Type(), "select")
 		// chanlink T.field ghost: a non-blocking receive from that channel field succeeds
